@@ -91,7 +91,7 @@ def is_handshake(text):
     return t in HANDSHAKE or "M110" in t
 
 
-def execute(scn, guide=None, keep=False):
+def execute(scn, guide=None, keep=False, observer=None):
     k, env = common.build(scn, guide)
     fw = env["fw"]
     m = shims.repo_modules()
@@ -232,6 +232,8 @@ def execute(scn, guide=None, keep=False):
                 try:
                     w.write(data)
                     hist.append(("ret", i, k.ev("ret", i), None))
+                    if observer is not None:
+                        observer.after_write(i, w, k)
                 except SimAbort:
                     raise
                 except BaseException as e:
@@ -281,6 +283,9 @@ def execute(scn, guide=None, keep=False):
             viol = relaxed
     extra = {"completed_writes": sum(1 for h in hist if h[0] in ("ret", "raise")),
              "findings": findings}
+    if observer is not None:
+        viol = viol + observer.check(scn, k, fw, hist)
+        extra.update(observer.extra())
     if keep:
         extra.update({"log": k.log, "fw": fw, "hist": hist})
     return common.finish(k, scn, viol, extra)
